@@ -400,7 +400,7 @@ def run(ctx):
     rng = ctx.rng
     if ctx.shard == 0:
         recorded_urls(ctx)
-    n = 40 if ctx.tier == "quick" else 6000
+    n = 500 if ctx.tier == "quick" else 8000
     m2 = util.map2d
     for t in range(n):
         with ctx.guard(60):
